@@ -462,13 +462,30 @@ harness!(vm_set_field, unwind = 4, {
     forget(r); forget(state); forget(program);
 });
 
-/// Receiver is anything but an object: always a failure, the heap stays as it was.
+/// Receiver is an array: a failure, the heap stays as it was.
+harness!(vm_set_field_on_array, unwind = 4, {
+    let program = field_program();
+    let (mut state, _sentinel, _l0, _l1) = base_state(0);
+    state.heap = Heap::from(field_heap(Pointer::Integer(3)));
+    state.operand_stack.push(Pointer::Reference(HeapIndex::from(1usize)));
+    state.operand_stack.push(any_pointer(2));
+    let r = eval_set_field(&program, &mut state, &cpi(0));
+    witness!(r.is_err(), "W: array receiver rejected");
+    assert!(r.is_err(), "C10: set slot on an array did not fail");
+    assert!(field_of(&state) == Some(Pointer::Integer(3)) && heap_len(&state, 3) == 2, "C10: failing set slot modified the heap");
+    forget(r); forget(state); forget(program);
+});
+
+/// Receiver is a primitive or a dangling reference: always a failure, the heap stays as it was.
 harness!(vm_set_field_non_object, unwind = 4, {
     let program = field_program();
     let (mut state, _sentinel, _l0, _l1) = base_state(0);
     state.heap = Heap::from(field_heap(Pointer::Integer(3)));
-    let recv = any_pointer(2);
-    kani::assume(recv != Pointer::Reference(HeapIndex::from(0usize)));
+    // primitives and a dangling reference (an array receiver is the thorough-tier harness below: with the receiver's
+    // cell kind symbolic as well the run needs more than 12 GB)
+    let k = any_u8_below(4);
+    let recv = if k == 0 { Pointer::Null } else if k == 1 { Pointer::Integer(kani::any()) } else if k == 2 { Pointer::Boolean(kani::any()) }
+        else { Pointer::Reference(HeapIndex::from(2usize)) };
     state.operand_stack.push(recv);
     state.operand_stack.push(any_pointer(2));
     let r = eval_set_field(&program, &mut state, &cpi(0));
